@@ -233,6 +233,7 @@ pub fn build_cmd(c: &Value) -> Command {
     if on("subcommand_negates_reqs") { cmd = cmd.subcommand_negates_reqs(true); }
     if on("no_binary_name") { cmd = cmd.no_binary_name(true); }
     if on("multicall") { cmd = cmd.multicall(true); }
+    if on("flatten_help") { cmd = cmd.flatten_help(true); }
     #[allow(deprecated)]
     {
         if on("allow_hyphen_values") { cmd = cmd.allow_hyphen_values(true); }
